@@ -2,7 +2,9 @@ package sim
 
 import (
 	"bytes"
+	"crypto"
 	"crypto/ecdsa"
+	"crypto/ed25519"
 	"encoding/asn1"
 	"math/big"
 
@@ -102,6 +104,10 @@ func scenarioC03(r *Run) {
 	t := r.T
 	if t.Bool(1, 8, "c03.envelope") {
 		c03Envelope(r)
+		return
+	}
+	if t.Bool(1, 24, "c03.badkey") {
+		c03DamagedKey(r)
 		return
 	}
 	fm := GenFaultMix(t)
@@ -483,4 +489,95 @@ func minedRSA() []*Wire {
 		panic("harness: no RSA signature with a leading zero found")
 	}
 	return minedRSACache
+}
+
+// c03DamagedKey: the verifier's key store hands out a damaged Go public key
+// (truncated or extended Ed25519 key, an EC point with a flipped bit or the
+// zero point).  Nothing is valid under such a key: whatever NewVerifier and
+// Verify do with it - refuse, return an error, panic - Verify must not return
+// nil, neither for the genuine signature nor for a forged one.
+func c03DamagedKey(r *Run) {
+	t := r.T
+	ent := NewEntropy(uint64(t.U32("entropy.seed")))
+	var k *KeyPair
+	if t.Bool(1, 2, "c03.badkey.ed") {
+		k = poolEd[t.Choose(len(poolEd), "c03.badkey.k")]
+	} else {
+		k = poolEC[t.Choose(len(poolEC), "c03.badkey.k")]
+	}
+	var bad crypto.PublicKey
+	what := ""
+	switch pub := k.Pub.(type) {
+	case ed25519.PublicKey:
+		switch t.Choose(5, "c03.badkey.kind") {
+		case 0:
+			bad, what = ed25519.PublicKey(nil), "ed25519-nil"
+		case 1:
+			bad, what = ed25519.PublicKey{}, "ed25519-empty"
+		case 2:
+			bad, what = append(ed25519.PublicKey{}, pub[:31]...), "ed25519-31-bytes"
+		case 3:
+			bad, what = append(append(ed25519.PublicKey{}, pub...), 0), "ed25519-33-bytes"
+		default:
+			bad, what = append(append(ed25519.PublicKey{}, pub...), pub...), "ed25519-64-bytes"
+		}
+	case *ecdsa.PublicKey:
+		cp := &ecdsa.PublicKey{Curve: pub.Curve, X: new(big.Int).Set(pub.X), Y: new(big.Int).Set(pub.Y)}
+		switch t.Choose(3, "c03.badkey.kind") {
+		case 0:
+			cp.Y.Xor(cp.Y, big.NewInt(1<<uint(t.Choose(60, "c03.badkey.bit"))))
+			what = "ec-y-bitflip"
+		case 1:
+			cp.X.Add(cp.X, big.NewInt(1))
+			what = "ec-x-plus-one"
+		default:
+			cp.X, cp.Y = new(big.Int), new(big.Int)
+			what = "ec-zero-point"
+		}
+		if cp.Curve.IsOnCurve(cp.X, cp.Y) {
+			r.Outcome("badkey-still-on-curve")
+			return
+		}
+		bad = cp
+	}
+	spec := genSpec(t, SpecOpts{Kinds: []refcose.Kind{refcose.KSign1Tagged, refcose.KSign1Untagged}, MaxExtra: 2})
+	spec.Key = k
+	spec.Layer.Prot = append(removeLabel(spec.Layer.Prot, refcose.LAlg), KV{refcbor.Uint(refcose.LAlg), refcbor.Int(k.Alg)})
+	a := r.ForeignWire(t, spec, genKnobs(t), ent, false, 0, false)
+	r.Op("KEY_DAMAGED", "%s of %s", what, k.Name)
+	r.Outcome("damaged-key/" + what)
+	var v cose.Verifier
+	var err error
+	if lp := call(func() { v, err = cose.NewVerifier(cose.Algorithm(k.Alg), bad) }); lp != nil || err != nil || v == nil {
+		r.Check()
+		r.Outcome("damaged-key-refused-at-construction")
+		return
+	}
+	rc, derr := r.Decode(spec.Kind, a.B)
+	if derr != nil {
+		return
+	}
+	forged := t.Bool(1, 2, "c03.badkey.forged")
+	if forged {
+		rc.M1.Signature = make([]byte, len(rc.M1.Signature))
+	}
+	var verr error
+	r.Steps++
+	lp := call(func() {
+		if spec.Kind == refcose.KSign1Untagged {
+			verr = (*cose.UntaggedSign1Message)(rc.M1).Verify(spec.External, v)
+		} else {
+			verr = rc.M1.Verify(spec.External, v)
+		}
+	})
+	r.Check()
+	if lp == nil && verr == nil {
+		r.Fail("accepts-under-damaged-key/"+what, "Verify returned nil under a public key that is not a valid key (%s); forged signature: %v\nwire: %s", what, forged, hexShort(a.B))
+		return
+	}
+	if lp != nil {
+		r.Outcome("damaged-key-panics")
+	} else {
+		r.Outcome("damaged-key-refused")
+	}
 }
